@@ -147,6 +147,36 @@ static void cmd_track_output(const char *id, int state) {
 	if (b >= 0 && cm_board_connected(&M, b) && cm_is_track_output(&M.b[b]) && legal) { cm_board_addr(&M, b, exp[0].addr); exp[0].type = MSG_CS_SET_STATE; exp[0].data[0] = (uint8_t) state; exp[0].dlen = 1; n = 1; }
 	pre(); int rc = bidib_set_track_output_state(id, (t_bidib_cs_state) state); verdict(what, rc, n, exp, before);
 }
+/* administrative commands: one request to the named board */
+static void cmd_admin(int kind, const char *id, int arg) {
+	static const char *KN[4] = {"bidib_ping", "bidib_identify", "bidib_get_protocol_version", "bidib_get_software_version"};
+	cm_msg_t exp[2]; char what[120]; snprintf(what, sizeof what, "%s(%s%s%d)", KN[kind], id ? id : "NULL", kind < 2 ? ", " : "", kind < 2 ? arg : 0);
+	int b = id ? cm_find_board(&M, id) : -1; int n = 0;
+	if (b >= 0 && cm_board_connected(&M, b)) { cm_board_addr(&M, b, exp[0].addr); exp[0].dlen = 0; n = 1;
+		switch (kind) { case 0: exp[0].type = MSG_SYS_PING; exp[0].data[0] = (uint8_t) arg; exp[0].dlen = 1; break;
+		case 1: exp[0].type = MSG_SYS_IDENTIFY; exp[0].data[0] = (uint8_t) arg; exp[0].dlen = 1; if (arg > 1) n = -1; break;      /* identify state other than 0/1: not defined */
+		case 2: exp[0].type = MSG_SYS_GET_P_VERSION; break; default: exp[0].type = MSG_SYS_GET_SW_VERSION; break; } }
+	pre(); int rc = kind == 0 ? bidib_ping(id, (uint8_t) arg) : kind == 1 ? bidib_identify(id, (uint8_t) arg) : kind == 2 ? bidib_get_protocol_version(id) : bidib_get_software_version(id);
+	verdict(what, rc, n, exp, before);
+}
+/* reverser state request: MSG_VENDOR_GET with the configured CV name to the owning board */
+static void cmd_reverser(const char *rev, const char *board) {
+	cm_msg_t exp[2]; char what[160]; snprintf(what, sizeof what, "bidib_request_reverser_state(%s, %s)", rev ? rev : "NULL", board ? board : "NULL");
+	int n = 0; int b = board ? cm_find_board(&M, board) : -1;
+	if (rev && b >= 0 && cm_board_connected(&M, b)) { int owner = -1, k = -1; for (int i = 0; i < M.nb; i++) for (int j = 0; j < M.b[i].nrev; j++) if (!strcmp(M.b[i].rev[j].id, rev)) { owner = i; k = j; }
+		if (owner == b) { cm_board_addr(&M, b, exp[0].addr); exp[0].type = MSG_VENDOR_GET; size_t l = strlen(M.b[b].rev[k].cv); exp[0].data[0] = (uint8_t) l; memcpy(exp[0].data + 1, M.b[b].rev[k].cv, l); exp[0].dlen = 1 + (int) l; n = 1; }
+		else if (owner >= 0) n = -1; }      /* a reverser named together with a board that does not own it: not prescribed */
+	pre(); int rc = bidib_request_reverser_state(rev, board);
+	if (n == 1) { bidib_flush(); hx_quiesce(); sd_dump(before, sizeof before); }       /* the request marks the reverser state unknown: not part of the comparison */
+	verdict(what, rc, n, exp, before);
+}
+static void cmd_track_output_all(int state) {
+	cm_msg_t exp[4]; char what[80]; snprintf(what, sizeof what, "bidib_set_track_output_state_all(0x%02x)", state); int n = 0;
+	for (int b = 0; b < M.nb; b++) if (cm_board_connected(&M, b) && cm_is_track_output(&M.b[b])) { cm_board_addr(&M, b, exp[n].addr); exp[n].type = MSG_CS_SET_STATE; exp[n].data[0] = (uint8_t) state; exp[n].dlen = 1; n++; }
+	pre(); bidib_set_track_output_state_all((t_bidib_cs_state) state);
+	if (n == 0) { bidib_flush(); hx_quiesce(); if (SB.nlog != logpos) res_violation("rejected-command-sent-something: a rejected command submitted a message", "%s with no connected track output", what); logpos = SB.nlog; ncmds++; return; }
+	verdict(what, 0, n, exp, before);
+}
 static void sweep_child(const void *job, size_t n) {
 	vs_dev_t devs[VS_MAXDEV]; int nd; size_t pl; const uint8_t *p = job_parse(job, n, devs, &nd, &pl);
 	int presence = p[0] & 7, lose = p[0] >> 3, part = p[1], thorough = p[2];
@@ -161,6 +191,9 @@ static void sweep_child(const void *job, size_t n) {
 		for (int b = 0; b < 6; b++) { cmd_booster(BOARDS[b], 1); cmd_booster(BOARDS[b], 0); }
 		static const int CS[] = {0, 1, 2, 3, 4, 5, 7, 8, 9, 0x0D, 0x10, 0xFF};
 		for (int b = 0; b < 6; b++) for (int s = 0; s < 12; s++) { cmd_track_output(BOARDS[b], CS[s]); if (res_nviol() > 3) goto out; }
+		cmd_track_output_all(0x03); cmd_track_output_all(0x02); cmd_track_output_all(0x00);
+		for (int b = 0; b < 6; b++) { for (int v = 0; v < 256; v += (b == 0 ? 1 : 51)) cmd_admin(0, BOARDS[b], v); cmd_admin(1, BOARDS[b], 0); cmd_admin(1, BOARDS[b], 1); cmd_admin(1, BOARDS[b], 2); cmd_admin(2, BOARDS[b], 0); cmd_admin(3, BOARDS[b], 0); if (res_nviol() > 3) goto out; }
+		{ static const char *REVS[] = {"rev1", "nosuch", "point1", NULL}; for (int r = 0; r < 4; r++) for (int b = 0; b < 6; b++) cmd_reverser(REVS[r], BOARDS[b]); }
 	} else {
 		static const char *TR[] = {"train1", "train2", "nosuch", NULL};
 		int t = (part - 1) % 4, b0 = (part - 1) / 4;   /* one child per (train, board) pair */
